@@ -32,6 +32,12 @@ def _c11_case(c):
         if k == "B":
             title = unhex(nxt())
             pushes.append({"kind": "B", "title": title, "tag": int(nxt())})
+        elif k == "M":
+            ls = []
+            for _ in range(int(nxt())):
+                lt = unhex(nxt())
+                ls.append({"title": lt, "tag": int(nxt())})
+            pushes.append({"kind": "M", "layers": ls})
         else:
             title = unhex(nxt())
             es = []
@@ -115,6 +121,12 @@ def _c11_vm_goal(case, out):
         if k == "B":
             title = _vm_hexstr(nxt())
             ops.append("PBlob %s %d%%N" % (title, int(nxt())))
+        elif k == "M":
+            ls = []
+            for _ in range(int(nxt())):
+                lt = _vm_hexstr(nxt())
+                ls.append("(%s, %d%%N)" % (lt, int(nxt())))
+            ops.append("PManifest %s" % _vm_list(ls, "(str * N)"))
         else:
             title = _vm_hexstr(nxt())
             es, tms = [], []
@@ -148,7 +160,7 @@ def _c11_vm_goal(case, out):
             views.append("VFile %d%%N %d%%N" % (int(tg) * 1024 + int(m), int(st or 0)))
         else:
             views.append("VSym %s" % _vm_hexstr(v[1:]))
-    return ("let r := pushes %s %s %s %s (mkStore %s []) %s in\n  (snd r, map (vw %s (st_fs (fst r))) %s, length (ents (st_fs (fst r))))\n  = (%s, %s, %d)"
+    return ("let r := pushes %s %s %s %s (mkStore %s [] []) %s in\n  (snd r, map (vw %s (st_fs (fst r))) %s, length (ents (st_fs (fst r))))\n  = (%s, %s, %d)"
             % (g, pres, wd, cwd, fs, _vm_list(ops, "pushop"), wd, _vm_list(paths, "path"), oks, _vm_list(views, "view"), len(paths)))
 
 
